@@ -28,6 +28,8 @@ struct SimConfig {
   const uint32_t *trace = nullptr; // ST_TRACE: explicit decisions (choice | spurious<<16)
   size_t trace_len = 0;
   bool keep_log = false;      // keep the full event log (replay / probes)
+  bool reap_exits = false;    // a finished thread's real teardown (and a new thread's start-up) completes before the next simulated
+                              // step: no real code of two threads overlaps at all (history harness: heap layout = f(seed))
 };
 
 struct SimEvent { uint32_t step; uint16_t thread; uint16_t op; int32_t obj; int32_t aux; };
